@@ -522,6 +522,15 @@ def real_download(plan):
                 from wpull.network.connection import Connection
                 pool = ConnectionPool(resolver=fakenet.FakeResolver(),
                                       connection_factory=functools.partial(Connection, timeout=plan['timeout']))
+            elif plan.get('limit_rate'):
+                # --limit-rate at its edge values: the limit changes when bytes are read, never what a transfer is
+                import functools
+                from wpull.network.connection import Connection
+                from wpull.network.bandwidth import BandwidthLimiter
+                limiter = BandwidthLimiter(plan['limit_rate'])
+                limiter.sleep_time = lambda: 0          # (the pauses themselves are real time and not what is judged here)
+                pool = ConnectionPool(resolver=fakenet.FakeResolver(),
+                                      connection_factory=functools.partial(Connection, bandwidth_limiter=limiter))
             else:
                 pool = ConnectionPool(resolver=fakenet.FakeResolver())
             client = Client(connection_pool=pool)
@@ -608,7 +617,8 @@ def stream_download(ctx, n):
                       'glue': rng.random() < 0.4, 'yields': rng.choice([0, 1, 3]),
                       'prior_abort': rng.choice([None, None, 'listener', 'cancel']), 'cancel_after': rng.choice([6, 9, 12, 15, 20]),
                       'timeout': 0.03 if (r >= 0.85 and rng.random() < 0.6) else None,
-                      'restart': rng.choice([None, None, 3])})
+                      'restart': rng.choice([None, None, 3]),
+                      'limit_rate': rng.choice([None, None, None, 1, 5, 9, 10, 11, 4096, 10 ** 9]) if len(data) <= 40 and r < 0.65 else None})
     reqs = ['ftp transfer %s %s %s' % (enc_segs(p['dsegs']), 'R' if (p['end'] == 'reset' or (p['end'] is False and p.get('timeout'))) else 'T' if p['end'] else 'F',
                                        enc_segs(p['closing'])) for p in plans]
     replies = ctx.model.ask(reqs)
@@ -742,6 +752,13 @@ def sequence_once(steps, seed):
                 conn.send(body[half:])
                 conn.close()
                 closing = b'226 Transfer complete\r\n'
+            elif mode in ('late-226', 'late-426'):
+                # all (or half) of the data at once and the data connection closed; the closing reply only after the
+                # session's time limit has run out: the server has not confirmed anything when the client gives up
+                conn.send(body if mode == 'late-226' else body[:half])
+                conn.close()
+                await asyncio.sleep(0.06)
+                closing = b'226 Transfer complete\r\n' if mode == 'late-226' else b'426 Connection closed; transfer aborted\r\n'
             else:
                 for k in range(0, len(body), 1000):
                     conn.send(body[k:k + 1000])
@@ -806,7 +823,7 @@ def sequence_once(steps, seed):
                             raise OSError(28, 'listener failed')
                         session.event_dispatcher.add_listener(_S.Event.begin_transfer, boom)
                     await compat._ensure(session.start(request))
-                    resp = await compat._ensure(session.download(out, duration_timeout=0.02 if how == 'session-timeout' else None))
+                    resp = await compat._ensure(session.download(out, duration_timeout=0.02 if how in ('session-timeout', 'late-226', 'late-426') else None))
                     return ('complete', out.getvalue(), resp.reply.code)
         task = asyncio.ensure_future(run_it())
         done = await fakenet.settle(task, feeders, extra=400)
@@ -839,7 +856,7 @@ def sequence_once(steps, seed):
             for how, name in steps:
                 marks.append(len(world['log']))
                 results.append(await one(client, how, name, tmp))
-                await asyncio.sleep(0.08 if how == 'session-timeout' else 0)     # the late closing reply of a given-up transfer arrives
+                await asyncio.sleep(0.08 if how in ('session-timeout', 'late-226', 'late-426') else 0)     # the late closing reply of a given-up transfer arrives
                 for _ in range(20):
                     await asyncio.sleep(0)
             # which control connection each fetch used first, and whether an earlier fetch had used it
@@ -952,7 +969,7 @@ def stream_greeting(ctx, n):
         ctx.sample(first)
 
 
-PRIOR_KINDS = ['ok', 'data-reset', 'session-timeout', 'listener', 'hook-finish', 'hook-retry', 'probe-reset']
+PRIOR_KINDS = ['ok', 'data-reset', 'session-timeout', 'listener', 'hook-finish', 'hook-retry', 'probe-reset', 'late-226', 'late-426']
 
 
 def judge_sequence(ctx, steps, seed):
@@ -987,6 +1004,9 @@ def judge_sequence(ctx, steps, seed):
     for (how, nm), r in zip(steps[:-1], res[:-1]):
         if how == 'ok' and r != ('complete', FILES[('/dir/' + nm).encode()], 226):
             ctx.fail('reply-of-another-command', 'next-session', case, 'an ordinary download in the middle of the sequence ended as %r' % (r[:1] + r[2:],))
+        if how in ('data-reset', 'session-timeout', 'late-226', 'late-426') and r[0] == 'complete':
+            ctx.fail('premature-complete', 'Session.download', case, 'a transfer that ended as %r (the server had not confirmed it when the client '
+                     'gave up / the data connection broke) was reported complete with reply %r' % (how, r[2]))
         if how == 'probe-reset' and r != ('processed', 'done'):
             # the probe of the parent directory is only a hint: the file itself is there and the server answers every
             # command of its fetch in turn, so the item ends as done
